@@ -33,7 +33,8 @@ func main() {
 			os.Exit(2)
 		}
 		c := NewCtx(prop, *tier, s, *out)
-		if prop != "C06" {
+		// (C06 compares with fresh child processes; C07 is about the first uses in a process)
+		if prop != "C06" && prop != "C07" {
 			otherConfigurationsFirst(c)
 		}
 		r(c)
